@@ -209,3 +209,17 @@ register(c_throw_caught, id="C07.VM._throw.caught", prop="C07", target=method("m
          invariants={("microjs.vm:VM._throw", "len(self.call_stack) > frame_idx + 1"): inv_throw_unwind}, prim_args=False)
 register(c_throw_caught_across_native, id="C07.VM._throw.caught-across-native", prop="C07", target=method("microjs.vm", "VM._throw"), native=None,
          invariants={("microjs.vm:VM._throw", "len(self.call_stack) > frame_idx + 1"): inv_throw_unwind}, prim_args=False)
+
+
+@groups.group(id="C07.bounded.positions", prop="C07", kind="B", functions=["microjs.lexer:Lexer._skip_whitespace", "microjs.lexer:Lexer._advance"])
+def c07_positions(tier="quick", seed=0):
+    """the location of a throw statement is the position of its keyword, whatever white space and comments precede it, also comments spanning lines (the layouts of C13)"""
+    from contracts.C13_parsing import c13_positions
+    out = []
+    for o in c13_positions(tier, seed):
+        if o["id"].endswith(".throw"):
+            o = dict(o)
+            o["id"] = o["id"].replace("C13.", "C07.", 1)
+            o["finding_key"] = o["id"]
+            out.append(o)
+    return out
